@@ -504,3 +504,8 @@ func (w *World) pathAt(pos token.Pos) ([]ast.Node, *packages.Package) {
 	}
 	return nil, nil
 }
+
+func readRepoFile(w *World, rel string) (string, error) {
+	b, err := os.ReadFile(filepath.Join(w.RepoDir, rel))
+	return string(b), err
+}
